@@ -76,6 +76,10 @@ CHECKS['C14'] = dict(
     text='The generator builds certificate hierarchies (depth 1..4, ECDSA/RSA) so ground truth is known, injects one deviation at one link (wrong issuer level, forged signature, substituted key, unretrievable certificate via timeout/Nack, unsigned / digest-signed element, missing key locator, locator loop, foreign hierarchy), serves certificates from a scripted server on the recording face and runs the real lvs_validator on a virtual clock; anchors that do not match the roots of trust or are not self-signed must be refused; histories over several validator instances (different anchors, default/explicit storage) are run in permuted orders and every verdict compared with ground truth, with the number of certificate fetches recorded.',
     design_ref='DESIGN.md 3/C14', technique='runtime monitor with fault injection at every chain link and permuted multi-instance histories; verdicts compared with generator ground truth',
     note='RSA/ECDSA links only; validity periods not in the statement; pycryptodomex common-mode.', level='fault_enumeration')
+CHECKS['C15'] = dict(
+    text='Random histories of keychain operations (also across close/reopen) run on a real KeychainSqlite3 + TpmFile in a scratch directory and are mirrored in a dict model; after every operation all mapping views (iteration/len/membership/lookup, scoped to their owner), default flags (also counted in the stored rows), leftovers under deleted identities/keys (rows and private-key files) and signers (signature verified independently under the selected key, key locator decoded from the signed packet) are compared with the model. Fault sequences: the k-th execute/commit/save_key/os.remove of an operation raises and the operation is repeated; crash points: the connection is abandoned without commit and the store reopened.',
+    design_ref='DESIGN.md 3/C15', technique='runtime model-based monitor over generated histories with failpoint injection (proxies around the SQLite connection, key store and file removal)',
+    note='crash = abandoned connection (SQLite atomic commit trusted); after an injected fault the model is re-synchronised from the store and the repeated operation judged by its postcondition and the invariants.', level='fault_enumeration')
 _ALL = ['C%02d' % i for i in range(1, 21)]
 for _p in _ALL:
     if _p not in CHECKS:
